@@ -63,6 +63,9 @@ pub struct Config {
     /// (same primitive choices; built through the public `NoiseParams::name` field)
     #[serde(default)]
     pub hashed_name: [Option<String>; 2],
+    /// a different protocol name parsed by one side (C08: peers that disagree on a component)
+    #[serde(default)]
+    pub parse_name: [Option<String>; 2],
 }
 
 pub fn key_bytes(tag: u8) -> Vec<u8> {
@@ -105,6 +108,7 @@ impl Config {
             record: false,
             crypto_oracle: true,
             hashed_name: [None, None],
+            parse_name: [None, None],
         }
     }
     pub fn scripted(mut self, seed: u64) -> Config {
@@ -435,8 +439,8 @@ pub struct StepRecord {
 }
 
 pub fn build_real(cfg: &Config, side: Side, log: &Log) -> Result<HandshakeState, snow::Error> {
-    let mut params: NoiseParams = cfg.name.parse()?;
     let i = side.idx();
+    let mut params: NoiseParams = cfg.parse_name[i].as_ref().unwrap_or(&cfg.name).parse()?;
     if let Some(n) = &cfg.hashed_name[i] {
         params.name = n.clone();
     }
